@@ -3,6 +3,14 @@ from . import retro
 
 PROP = "C13"
 LEVEL = "model_checking"
+ENGINE = "E2-choice-tree"
+TECHNIQUE = "stateless exploration of the full answer tree of a scripted random source (every rng.choice / rng.permutation outcome) for every operation x parameter x plate layout, against a Counter / set reference model"
+LEVEL_TEXT = (
+    "Decides the documented shape guarantees of generated, smoothed and initial plates: every shipped operation is executed on the real code for every plate layout of the bounded "
+    "family and for EVERY answer its random generator could give (ordered samples without replacement, permutations, choices with "
+    "replacement are all choice points of a DFS explorer), and the oracle compares plate sample sets, sizes and observation status of the returned screen against set-comprehension / greedy references. "
+    "'For any generator state' therefore becomes 'for every possible answer', which no seed-based test reaches."
+)
 RULE = (
     "every shipped generator / smoother / hold-out x every parameter setting x every plate layout "
     "(<=3 samples, <=3 plates per sample, sizes 1..3, bounded total rows, with and without an observed plate, "
